@@ -366,7 +366,7 @@ pub fn run(ctx: &Ctx) -> Report {
         judge(mref, &c, &o, rep, &d);
     });
     rep.merge(r);
-    if ctx.only.is_none() {
+    if ctx.strict() {
         rep.require("connections_compared_with_plaintext", 100);
         rep.require("canary_scans", 100);
         rep.require("connections_where_sslrequest_and_clienthello_shared_a_read", 10);
